@@ -327,25 +327,34 @@ func (m *Machine) resolveSecret(op Op) (string, bool) {
 			return "", false
 		}
 		v, ok = nthLast(splitCSV(stored.RecoveryCodes), op.SN)
-	case "totp", "totpprev":
+	case "totp", "totpprev", "totp-2", "totp+2":
 		if stored == nil || stored.TOTPSecretKey == "" {
 			return "", false
 		}
 		at := time.Now()
-		if op.Src == "totpprev" {
+		switch op.Src {
+		case "totpprev":
 			at = at.Add(-5 * time.Minute)
+		case "totp-2":
+			at = at.Add(-60 * time.Second) // two periods back: just outside the validity window
+		case "totp+2":
+			at = at.Add(60 * time.Second)
 		}
 		c, err := totp.GenerateCode(stored.TOTPSecretKey, at)
 		if err != nil {
 			return "", false
 		}
 		v = c
-	case "totpsess":
+	case "totpsess", "totpsess-2":
 		sec, has := m.W.Jars[op.B].SessionCopy()["totp_secret"]
 		if !has {
 			return "", false
 		}
-		c, err := totp.GenerateCode(sec, time.Now())
+		at := time.Now()
+		if op.Src == "totpsess-2" {
+			at = at.Add(-60 * time.Second)
+		}
+		c, err := totp.GenerateCode(sec, at)
 		if err != nil {
 			return "", false
 		}
